@@ -433,8 +433,8 @@ class Lookups(Monitor):
       for c in spec:
         desc = c.startswith('-')
         v = L[r].get(c.lstrip('-'))
-        if isinstance(v, dict) and v.get('f') == 'inf':
-          v = float('inf')
+        if isinstance(v, dict) and 'f' in v:
+          v = float(v['f'])          # non-integral floats / inf are spelled {'f': repr} by norm()
         k.append(_Desc(v) if desc else v)
       k.append(r)
       return k
@@ -513,6 +513,13 @@ class DirectFlags(Monitor):
       return summ, formula
     summ_a, form_a = meta(d)
     summ_b, form_b = meta(pre)
+
+    def has_formula_text(dump):
+      tables = dump['_grist_Tables']['rows']
+      return set((tables[c['parentId']]['tableId'], c['colId'])
+                 for c in dump['_grist_Tables_column']['rows'].values()
+                 if c['parentId'] in tables and c['formula'])
+    trig = has_formula_text(d) | has_formula_text(pre)    # incl. trigger-formula data columns
     summ = summ_a | summ_b
     requested = json.loads(ctx.bundle)
     req_tables = set(a[1] for a in requested if a[0] in (
@@ -531,8 +538,10 @@ class DirectFlags(Monitor):
           yield (vkey('C31', 'formula-result-marked-direct', ctx, extra=tid),
                  "after %r: stored action %s writes only formula columns but is marked direct" % (
                      ctx.label, json.dumps(a)[:200]))
-      if tid in summ and name in ('AddRecord', 'BulkAddRecord', 'RemoveRecord', 'BulkRemoveRecord',
-                                  'UpdateRecord', 'BulkUpdateRecord') and flag and record_only:
+      # (updates of a summary table's group-by Ref cells when the referenced row is removed are
+      # reference clean-up of the user's own removal; the statement does not classify them)
+      if tid in summ and name in ('AddRecord', 'BulkAddRecord', 'RemoveRecord',
+                                  'BulkRemoveRecord') and flag and record_only:
         yield (vkey('C31', 'summary-maintenance-marked-direct', ctx),
                "after %r: stored action %s on a summary table is marked direct" % (
                    ctx.label, json.dumps(a)[:200]))
@@ -557,7 +566,7 @@ class DirectFlags(Monitor):
         for ra in requested:
           if ra[1] == tid and ra[0] in ('UpdateRecord', 'BulkUpdateRecord', 'AddRecord', 'BulkAddRecord'):
             req_cols |= set(ra[3])
-        if colids & req_cols and not any((tid, c) in form_a or (tid, c) in form_b for c in colids):
+        if colids & req_cols and not any((tid, c) in trig for c in colids):
           # data columns the user asked to write, in an update marked indirect
           has_trigger = False
           yield (vkey('C31', 'requested-update-marked-indirect', ctx),
